@@ -236,8 +236,9 @@ def run(tier, hists_override=None):
     cap = 2600 if tier == "quick" else 14000
     if total > cap:
         rnd = random.Random(common.seed())
-        short = [h for h in hists if len(h) <= 2]
-        longer = [h for h in hists if len(h) > 2]
+        # every history of at most one operation, a seeded sample of the longer ones
+        short = [h for h in hists if len(h) <= 1]
+        longer = [h for h in hists if len(h) > 1]
         hists = short + rnd.sample(longer, max(0, cap - len(short)))
         exhaustive = False
     if hists_override is not None:
